@@ -127,10 +127,15 @@ package stats
 
 // gob + bbolt wrappers (trusted): the stored unit is the one handed over; a loaded unit is the stored one, an absent
 // or undecodable bucket is an empty unit.  Units are stored by this version of the code, so NResult has resultLast entries.
+// (its body is examined for one thing: reporting success means the unit has been put into its bucket - every time, also
+// when the bucket exists already, as it does after a restart within the hour)
 //@ func (s *StatsCtx) flushUnitToDB(udb *unitDB, tx *bbolt.Tx, id uint32) (err error)
-//@   trusted
+//@   property C09
+//@   callsites-only
+//@   callsite (*go.etcd.io/bbolt.Tx).CreateBucketIfNotExists(t, name) requires own-bucket: bucketID(name) == id
+//@   ensures must-store: err == nil ==> putCalls == old(putCalls) + 1
 //@   ghost at return: dbN[id] = (err == nil ? udb.NTotal : old(dbN[id]))
-//@   modifies nothing
+//@   modifies putCalls
 //@ func (s *StatsCtx) loadUnitFromDB(tx *bbolt.Tx, id uint32) (udb *unitDB)
 //@   trusted
 //@   ensures udb != nil ==> fresh(udb) && udb.NTotal == dbN[id] && len(udb.NResult) == 6 && resIs(udb, id)
@@ -164,8 +169,13 @@ package stats
 //@   ensures window-survives-restart: err == nil && s.curr.id > uint32(s.limit.Hours()) ==> delBound + uint32(s.limit.Hours()) <= s.curr.id + 1
 //@   modifies *
 
+// lastGenID: the hour id most recently produced by the id generator.
+//@ ghost var lastGenID int
 //@ func (functype) UnitIDGenFunc() (id uint32)
-//@   modifies nothing
+//@   ghost at return: lastGenID = id
+//@   modifies lastGenID
+// flushDBCalls counts the hourly swaps attempted.
+//@ ghost var flushDBCalls int
 
 // Hourly swap: the unit that was current is persisted under its own id with its own counts, the new current unit is
 // empty and carries the new id, and the only bucket deleted is the one that leaves the window (id - limit).
@@ -178,13 +188,15 @@ package stats
 //@   ensures swapped: s.curr != old(s.curr) ==> fresh(s.curr) && wfUnit(s.curr) && s.curr.id == id && s.curr.nTotal == 0 && (forall r int :: 0 <= r && r < 6 ==> s.curr.nResult[r] == 0)
 //@   ensures old-unit-kept: ptr.nTotal == old(ptr.nTotal) && ptr.id == old(ptr.id)
 //@   ensures persisted-or-kept: s.curr == old(s.curr) || dbN[old(ptr.id)] == old(ptr.nTotal) || dbN[old(ptr.id)] == old(dbN[ptr.id])
-//@   modifies s.curr, dbN
+//@   ghost at return: flushDBCalls = old(flushDBCalls) + 1
+//@   modifies s.curr, dbN, flushDBCalls, putCalls
 
 //@ func (s *StatsCtx) flush() (cont bool, sleepFor time.Duration)
 //@   property C09
 //@   requires nolocks()
 //@   requires s.curr != nil ==> wfUnit(s.curr)
 //@   callsite (*github.com/AdguardTeam/AdGuardHome/internal/stats.StatsCtx).flushDB(id, limit, ptr) requires hour-changed: ptr == s.curr && ptr != nil && ptr.id != id && limit != 0
+//@   ensures rotates-whenever-the-hour-has-changed: old(s.curr) != nil && uint32(old(s.limit).Hours()) != 0 && old(s.curr.id) != lastGenID ==> flushDBCalls == old(flushDBCalls) + 1
 //@   modifies *
 
 // Clean shutdown persists the current unit under its own id.
